@@ -171,7 +171,15 @@ func runC03History(r *rng, ops []c03Op, crashAt int) (c03Case, error) {
 		// detach the dead incarnation from the transport so that the new one can register
 		inc.ds.VerifForget(0)
 	}
-	inc2, err := startIncarnation(c, meta, 0)
+	// a restart that panics (raft refusing the stored state) loses every acknowledged write of this replica
+	inc2, err := func() (i *incarnation, e error) {
+		defer func() {
+			if p := recover(); p != nil {
+				e = fmt.Errorf("panic: %s", panicText(p))
+			}
+		}()
+		return startIncarnation(c, meta, 0)
+	}()
 	if err != nil {
 		cs.Note = "restart failed: " + err.Error()
 		return cs, nil
